@@ -399,6 +399,10 @@ fn other_role(r: crate::fsm::Role) -> crate::fsm::Role {
     }
 }
 
+/// how long the end of a session task is waited for once its cause has been given (it is immediate; a session that
+/// does not end is a failure of the case, and many cases may fail)
+const END_WAIT: u64 = 4;
+
 async fn settle() {
     for _ in 0..50 {
         tokio::task::yield_now().await;
@@ -434,6 +438,7 @@ impl Live {
         let mut spins = 0u32;
         while self.counter.total.load(Ordering::Relaxed) < self.base + self.sent {
             tokio::time::sleep(Duration::from_millis(1)).await;
+            assert!(!self.handle.is_finished(), "verif: the session ended while messages were on their way");
             spins += 1;
             assert!(spins < 5000, "verif: the session did not read the messages");
         }
@@ -469,15 +474,18 @@ impl Live {
     async fn finished_after_close(self) {
         let Live { client, handle, .. } = self;
         drop(client);
-        tokio::time::timeout(Duration::from_secs(15), handle)
+        tokio::time::timeout(Duration::from_secs(END_WAIT), handle)
             .await
             .expect("verif: the connection did not end")
             .expect("verif: session task panicked");
         settle().await;
     }
     async fn finished(self) {
+        self.finished_within(END_WAIT).await
+    }
+    async fn finished_within(self, secs: u64) {
         let Live { client, handle, .. } = self;
-        tokio::time::timeout(Duration::from_secs(15), handle)
+        tokio::time::timeout(Duration::from_secs(secs), handle)
             .await
             .expect("verif: the session did not end")
             .expect("verif: session task panicked");
@@ -788,7 +796,7 @@ async fn run_helper_case(l: &[Val]) -> Val {
                             // TCP failure: the neighbour's socket goes away
                             let Live { client, handle, .. } = lv;
                             drop(client);
-                            tokio::time::timeout(Duration::from_secs(15), handle)
+                            tokio::time::timeout(Duration::from_secs(END_WAIT), handle)
                                 .await
                                 .expect("verif: the session did not end")
                                 .expect("verif: session task panicked");
@@ -826,7 +834,7 @@ async fn run_helper_case(l: &[Val]) -> Val {
                         }
                         6 => {
                             // silence until the (3 s) hold timer of the session expires
-                            lv.finished().await;
+                            lv.finished_within(15).await;
                         }
                         7 => {
                             // disable_peer: the close channel accept_connection registered
@@ -858,7 +866,7 @@ async fn run_helper_case(l: &[Val]) -> Val {
                 .await;
                 drop(client);
                 if let Some((_counter, handle)) = started {
-                    tokio::time::timeout(Duration::from_secs(15), handle)
+                    tokio::time::timeout(Duration::from_secs(END_WAIT), handle)
                         .await
                         .expect("verif: the connection attempt did not end")
                         .expect("verif: session task panicked");
@@ -1027,12 +1035,12 @@ async fn run_helper_case(l: &[Val]) -> Val {
     if let Some(sb) = sibling.take() {
         let Live { client, handle, .. } = sb;
         drop(client);
-        let _ = tokio::time::timeout(Duration::from_secs(15), handle).await;
+        let _ = tokio::time::timeout(Duration::from_secs(END_WAIT), handle).await;
     }
     if let Some(lv) = live.take() {
         let Live { client, handle, .. } = lv;
         drop(client);
-        let _ = tokio::time::timeout(Duration::from_secs(15), handle).await;
+        let _ = tokio::time::timeout(Duration::from_secs(END_WAIT), handle).await;
     }
     Val::L(obs)
 }
